@@ -80,8 +80,11 @@ def read_checks(e, d, typ, key):
         return "fields_dict", srepr(fd)
     if e.items() != [("ENTRYTYPE", typ), ("ID", key)] + [(k, f.value) for k, f in d.items()]:
         return "items", srepr(e.items())
-    if e["ENTRYTYPE"] != typ or e["ID"] != key:
-        return "reserved-lookup", f"{e['ENTRYTYPE']!r} {e['ID']!r}"
+    try:
+        if e["ENTRYTYPE"] != typ or e["ID"] != key:
+            return "reserved-lookup", f"{e['ENTRYTYPE']!r} {e['ID']!r}"
+    except Exception as ex:  # noqa
+        return "reserved-lookup", f"raised {type(ex).__name__} for type={typ!r} key={key!r}"
     for k in KEYS + ["zz"]:
         if (k in e) != (k in d):
             return "contains", k
@@ -105,7 +108,8 @@ def check_map(case, ctx):
     c0 = contracts.COUNT["entry_invariant"]
     start = STARTS[case["start"]]
     fields = [Field(k, "v0_" + k, i) for i, k in enumerate(start)]
-    e = Entry("article", "Key1", list(fields), start_line=0, raw="raw")
+    typ, ekey = [("article", "Key1"), ("article", ""), ("", "0"), ("misc", "Key1")][(case["start"] + len(case["ops"])) % 4]
+    e = Entry(typ, ekey, list(fields), start_line=0, raw="raw")
     if case.get("pre"):
         from bibtexparser.library import Library
         lib = pre_apply(Library([e]), case["pre"])
@@ -114,7 +118,7 @@ def check_map(case, ctx):
     d = {f.key: f for f in e.fields}
     out = []
     replaced = removed = False
-    why = read_checks(e, d, "article", "Key1")
+    why = read_checks(e, d, typ, ekey)
     if why:
         return [Violation("model-mismatch", f"C19:map:init:{why[0]}", dict(case=case, why=why))]
     for step, (op, k) in enumerate(case["ops"]):
@@ -172,7 +176,7 @@ def check_map(case, ctx):
             out.append(Violation("model-mismatch", f"C19:map:{op}:return-value", dict(case=case, step=step, got=srepr(res), want=srepr(exp))))
             break
         ctx.mon("model_step")
-        why = read_checks(e, d, "article", "Key1")
+        why = read_checks(e, d, typ, ekey)
         if why:
             out.append(Violation("model-mismatch", f"C19:map:{op}:{why[0]}", dict(case=case, step=step, why=why,
                                                                                    fields=[f.key for f in e.fields], model=list(d.keys()))))
